@@ -322,6 +322,20 @@ fn gen_c04(r: &mut Rng) -> (J, Prog) {
     }
     if with_recs {
         add_some_variable_probes(r, &mut p);
+        // two clauses in one scope that differ only INSIDE their filter, with different
+        // outcomes (`nick` exists in every other record), alone in a rule
+        let names: Vec<String> = match doc::at(&d, &[doc::Seg::Key("recs".into())]) {
+            Some(J::List(xs)) => xs.iter().filter_map(|x| if let J::Map(m) = x { m.iter().find(|(k, _)| k == "name").and_then(|(_, v)| if let J::Str(s) = v { Some(s.clone()) } else { None }) } else { None }).collect(),
+            _ => vec![],
+        };
+        if names.len() >= 2 {
+            let mk = |n: &str| Line { alts: vec![Clause::Cmp(Cmp { not: false, q: Query { some: false, parts: vec![Part::Key("recs".into()), Part::Filter { cap: None, lines: vec![Line { alts: vec![Clause::Cmp(Cmp { not: false, q: Query { some: false, parts: vec![Part::Key("name".into())] }, op: Op::Eq, opnot: false, rhs: Some(rules::Rhs::Lit(J::Str(n.to_string()))), msg: None })] }] }, Part::Key("nick".into())] }, op: Op::Exists, opnot: false, rhs: None, msg: None })] };
+            let mut lines = vec![mk(&names[0]), mk(&names[1])];
+            if r.chance(1, 2) {
+                lines.swap(0, 1);
+            }
+            p.rules.push(Rule { name: "probe_pair".into(), when: vec![], body: Body { lets: vec![], lines } });
+        }
     }
     // blocks that select the same values, one after the other, the first with a variable of its
     // own that shadows an outer one, the second using the outer one (each block is a scope)
